@@ -692,6 +692,11 @@ class Interp:
         return None
 
     def instantiate(self, cls, args, kwargs):
+        why, _o = cls.lookup('__unmodelled__')
+        if why is not None:
+            self.inexact('class %s: %s' % (cls.name, why.v))
+        if cls.lookup('__enum_members__')[0] is not None:
+            return self.world.enum_lookup(self, cls, args)
         nt = cls.nt_base()
         if nt is not None:
             if cls.lookup('__new__')[0] is not None or \
@@ -796,6 +801,12 @@ class Interp:
         if isinstance(dv, ExtRef):
             if dv.name == 'property':
                 return PropertyV(v)
+            if dv.name == 'functools.cached_property':
+                # computed on first access and kept on the instance: for a
+                # getter without side effects this is a property
+                pv = PropertyV(v)
+                pv.cached = True
+                return pv
             if dv.name == 'staticmethod':
                 return StaticV(v)
             if dv.name == 'classmethod':
@@ -896,7 +907,38 @@ class Interp:
         return disp
 
     def st_ClassDef(self, s, fr):
-        fr.env[s.name] = self.world.make_class(self, s, fr)
+        cls = self.world.make_class(self, s, fr)
+        v = cls
+        for d in reversed(s.decorator_list):
+            v = self.apply_class_decorator(d, v, cls, fr)
+        fr.env[s.name] = v
+
+    def apply_class_decorator(self, d, v, cls, fr):
+        try:
+            dv = self.eval(d.func if isinstance(d, ast.Call) else d, fr)
+        except (AbsRaise, Inexact):
+            dv = None
+        name = dv.name if isinstance(dv, ExtRef) else None
+        if name in ('dataclasses.dataclass',) and v is cls:
+            opts = {}
+            if isinstance(d, ast.Call):
+                for kw in d.keywords:
+                    try:
+                        opts[kw.arg] = self.eval(kw.value, fr)
+                    except (AbsRaise, Inexact):
+                        opts[kw.arg] = None
+            return self.world.make_dataclass(self, cls, opts, fr)
+        if name in ('functools.total_ordering', 'typing.final',
+                    'typing.runtime_checkable'):
+            if name == 'functools.total_ordering':
+                cls.attrs['__unmodelled__'] = K(
+                    'ordering methods synthesised by total_ordering')
+            return v
+        # any other class decorator: the class is used as written, but
+        # whatever creates or calls instances is marked inexact
+        cls.attrs['__unmodelled__'] = K('class decorator %s' %
+                                        ast.unparse(d))
+        return v
 
     def st_Return(self, s, fr):
         raise _Return(self.eval(s.value, fr) if s.value else K(None))
@@ -1092,6 +1134,116 @@ class Interp:
             self.exec_block(s.body, fr)
         else:
             self.exec_block(s.orelse, fr)
+
+    def st_Match(self, s, fr):
+        subject = self.eval(s.subject, fr)
+        for case in s.cases:
+            if self.match_pattern(case.pattern, subject, fr) and (
+                    case.guard is None or
+                    self.truth(self.eval(case.guard, fr))):
+                self.exec_block(case.body, fr)
+                return
+
+    def match_pattern(self, p, v, fr):
+        """Does pattern *p* match value *v*?  Captures are bound in *fr*."""
+        from . import models
+        if isinstance(p, ast.MatchValue):
+            return self.truth(models.compare(self, ast.Eq(), v,
+                                             self.eval(p.value, fr)))
+        if isinstance(p, ast.MatchSingleton):
+            return self.truth(models.compare(self, ast.Is(), v, K(p.value)))
+        if isinstance(p, ast.MatchAs):
+            if p.pattern is not None and not self.match_pattern(p.pattern, v,
+                                                                fr):
+                return False
+            if p.name is not None:
+                fr.env[p.name] = v
+            return True
+        if isinstance(p, ast.MatchOr):
+            return any(self.match_pattern(q, v, fr) for q in p.patterns)
+        if isinstance(p, ast.MatchSequence):
+            if isinstance(v, (ListV, TupleV)):
+                items = list(v.items)
+            elif isinstance(v, K) and isinstance(v.v, tuple):
+                items = [K(x) for x in v.v]
+            elif isinstance(v, (K, DictV, SetV, Obj)):
+                return False        # str / bytes / mappings are no sequences
+            else:
+                raise Inexact('sequence pattern on a symbolic value')
+            stars = [i for i, q in enumerate(p.patterns)
+                     if isinstance(q, ast.MatchStar)]
+            if not stars:
+                if len(items) != len(p.patterns):
+                    return False
+                return all(self.match_pattern(q, x, fr)
+                           for q, x in zip(p.patterns, items))
+            i = stars[0]
+            after = len(p.patterns) - i - 1
+            if len(items) < i + after:
+                return False
+            ok = all(self.match_pattern(q, x, fr)
+                     for q, x in zip(p.patterns[:i], items[:i])) and \
+                all(self.match_pattern(q, x, fr)
+                    for q, x in zip(p.patterns[i + 1:],
+                                    items[len(items) - after:]))
+            if ok and p.patterns[i].name is not None:
+                fr.env[p.patterns[i].name] = ListV(
+                    items[i:len(items) - after])
+            return ok
+        if isinstance(p, ast.MatchMapping):
+            if not isinstance(v, DictV):
+                if isinstance(v, (K, ListV, TupleV, SetV)):
+                    return False
+                raise Inexact('mapping pattern on a symbolic value')
+            used = []
+            for kx, q in zip(p.keys, p.patterns):
+                k = self.eval(kx, fr)
+                i = v.index(k)
+                if i < 0:
+                    if v.unknown:
+                        raise Inexact('mapping pattern on a dict with '
+                                      'symbolic keys')
+                    return False
+                used.append(i)
+                if not self.match_pattern(q, v.vals[i], fr):
+                    return False
+            if p.rest is not None:
+                fr.env[p.rest] = DictV([(k, x) for j, (k, x) in enumerate(
+                    zip(v.keys, v.vals)) if j not in used])
+            return True
+        if isinstance(p, ast.MatchClass):
+            cls = self.eval(p.cls, fr)
+            if not self.truth(models.isinstance_(self, v, cls)):
+                return False
+            if p.patterns:
+                if len(p.patterns) == 1 and isinstance(cls, ExtRef) and \
+                        cls.name in ('str', 'int', 'float', 'bytes', 'bool',
+                                     'list', 'tuple', 'dict', 'set',
+                                     'frozenset', 'bytearray'):
+                    if not self.match_pattern(p.patterns[0], v, fr):
+                        return False
+                else:
+                    names = None
+                    if isinstance(cls, ClassRef):
+                        ma, _o = cls.lookup('__match_args__')
+                        if ma is not None:
+                            names = [x.v for x in self.iterate(ma)]
+                        elif cls.nt_base() is not None:
+                            names = list(cls.nt_base().fields)
+                    elif isinstance(cls, NTClass):
+                        names = list(cls.fields)
+                    if names is None or len(names) < len(p.patterns):
+                        raise Inexact('positional class pattern')
+                    for nm, q in zip(names, p.patterns):
+                        if not self.match_pattern(q, self.get_attr(v, nm),
+                                                  fr):
+                            return False
+            for nm, q in zip(p.kwd_attrs, p.kwd_patterns):
+                a = self.get_attr(v, nm, missing_ok=True)
+                if a is None or not self.match_pattern(q, a, fr):
+                    return False
+            return True
+        raise Inexact('pattern %s' % type(p).__name__)
 
     def st_While(self, s, fr):
         n = 0
@@ -1594,6 +1746,11 @@ class Interp:
         if isinstance(v, FuncRef):
             return v.bind(obj)
         if isinstance(v, PropertyV):
+            if getattr(v, 'cached', False) and isinstance(obj, Obj) and \
+                    isinstance(v.fget, FuncRef):
+                r = self.call(v.fget.bind(obj), [])
+                obj.fields[v.fget.name] = r
+                return r
             if isinstance(v.fget, FuncRef):
                 return self.call(v.fget.bind(obj), [])
             return self.call(v.fget, [obj])     # property(callable)
